@@ -139,6 +139,9 @@ STRUCT = {
     'multi-line-tag-skip': ["A\n", O('t', RT + "\nskip"), "\nq\n", C('t'), "\n", H(1, 'ws'), O('m', RX + "\nunwrap-block"), "\n{\n  k", H(1, 'txt'), "\n}\n", C('m'), "\nB\n"],
     'head-wrapper-child-plus-inner-ready': ["A\n", O('m', RX + ' unwrap-block'), "\nif (f) { ", O('t', RT), "c", C('t'), "\n", H(1, 'ind'), "k;\n", O('t', RT), "\nq;\n", C('t'), "\n", H(1, 'ind'), O('m', PN), "\n", O('t', RT), "w", C('t'), "\n", C('m'), "\n}\n", C('m'), "\nB", H(1)],
     'ends-with-close-tag': [H(1), "A\n", O('m', RX), "\nq", H(1), "\n", C('m')],
+    'inline-then-text-then-blank-line': ["a ", O('m', RX), "q", C('m'), H(1, 'sp'), "b", H(1, 'txt'), "\n", H(1, 'ind'), "\nc\n", H(1, 'ws'), "d"],
+    'blank-line-then-text-then-inline': ["a\n", H(1, 'ind'), "\nb", H(1, 'txt'), H(1, 'sp'), O('m', RX), "q", C('m'), " c\n", H(1, 'ind'), "\nd\n"],
+    'inline-between-blank-lines-with-text': ["a\n\n", H(1, 'ind'), "x", H(1, 'sp'), O('t', RT), "q", C('t'), H(1, 'sp'), "y", H(1, 'ind'), "\n\nz\n"],
     'unwrap-nested-ready-then-indented-blank-line': ["A\n", O('t', RT + ' unwrap-block'), "\n{\n  first();\n", H(2, 'ind'), "\n  ", O('m', RX), "\n  old();\n  ", C('m'), "\n", H(2, 'ind'), "\n", H(1, 'ind'), " second();\n\tafter();\n}\n", C('t'), "\nB\n"],
     'code-before-unwrap-tag-child-ends-midline': ["top\n    foo(); ", O('m', RX + ' unwrap-block'), "\n    if (x) { ", O('t', RT), "\n      junk\n    ", C('t'), H(1, 'nb'), H(2, 'ind'), "b", H(1, 'ind'), "c\n        body\n    }\n    ", C('m'), "\ntail\n"],
     'text-after-wrapper-child-on-head-line': ["a\n", O('t', RT + ' unwrap-block'), "\n{ ", O('m', RX), "\n foo\n ", C('m'), "a", H(2, 'ind'), "b", H(1, 'txt'), "\n  bar\n}\n", C('t'), "\nB\n"],
